@@ -1,0 +1,32 @@
+//go:build verif
+
+package caskettls
+
+import (
+	"crypto/tls"
+	"time"
+)
+
+// VerifTicketRotation runs the session-ticket key rotation loop
+// (standaloneTLSTicketKeyRotation) on c in the calling goroutine with a
+// caller-owned ticker channel and returns when the loop returns.
+// Used by the verification harness only (build tag verif).
+func VerifTicketRotation(c *tls.Config, tick <-chan time.Time, exitChan chan struct{}) {
+	standaloneTLSTicketKeyRotation(c, &time.Ticker{C: tick}, exitChan)
+}
+
+// VerifSetTicketKeysHook installs h as the hook every rotation goroutine
+// started from now on passes its key list through before handing it to
+// SetSessionTicketKeys, and returns a function that puts the previous
+// hook back.
+func VerifSetTicketKeysHook(h func(keys [][32]byte) [][32]byte) (restore func()) {
+	setSessionTicketKeysTestHookMu.Lock()
+	old := setSessionTicketKeysTestHook
+	setSessionTicketKeysTestHook = h
+	setSessionTicketKeysTestHookMu.Unlock()
+	return func() {
+		setSessionTicketKeysTestHookMu.Lock()
+		setSessionTicketKeysTestHook = old
+		setSessionTicketKeysTestHookMu.Unlock()
+	}
+}
